@@ -1,6 +1,7 @@
 package rules
 
 import (
+	"go/token"
 	"fmt"
 	"go/constant"
 	"go/types"
@@ -48,8 +49,20 @@ func runC19(p *core.Prog, r *core.Report, tier string) {
 	ds := core.NewDescriber()
 	var getters, loopGetters []*ssa.Function
 	for _, f := range p.FuncsIn("util") {
-		if f.Parent() != nil || f.Object() == nil || !f.Object().Exported() {
+		if f.Parent() != nil || f.Object() == nil {
 			continue
+		}
+		// exported getters, and unexported ones an exported getter delegates its lookup to
+		if !f.Object().Exported() {
+			hasStringParam := false
+			for _, prm := range f.Params {
+				if b, ok := prm.Type().Underlying().(*types.Basic); ok && b.Kind() == types.String {
+					hasStringParam = true
+				}
+			}
+			if !hasStringParam {
+				continue
+			}
 		}
 		self := false
 		core.EachInstr(f, func(in ssa.Instruction) {
@@ -406,8 +419,25 @@ func checkHierarchical(p *core.Prog, r *core.Report, ds *core.Describer, f *ssa.
 			suffix = rest
 		}
 	})
-	// string concatenation form: path + "." + K'
+	// string concatenation form: path + ".K'"
+	var keyVal ssa.Value
 	if keyCall == nil {
+		core.EachInstr(f, func(in ssa.Instruction) {
+			bo, ok := in.(*ssa.BinOp)
+			if !ok || bo.Op != token.ADD || bo.X != ssa.Value(path) {
+				return
+			}
+			if cs, ok := constString(bo.Y); ok && strings.HasPrefix(cs, ".") {
+				keyVal = bo
+				suffix = strings.TrimPrefix(cs, ".")
+			}
+		})
+	}
+	var keyV ssa.Value = keyVal
+	if keyCall != nil {
+		keyV = keyCall
+	}
+	if keyV == nil {
 		r.Violate("C19.2", base+"|key", p.Pos(f.Pos()), "the lookup key is not built as <path>.<name> from the path parameter")
 		return
 	}
@@ -436,7 +466,7 @@ func checkHierarchical(p *core.Prog, r *core.Report, ds *core.Describer, f *ssa.
 				var g string
 				hit := false
 				c.B.Walk(func(x *core.VD) bool {
-					if x.Kind == "call" && strings.Contains(x.Name, "spf13/viper.") && len(x.Args) == 1 && x.Args[0].Val == ssa.Value(keyCall) {
+					if x.Kind == "call" && strings.Contains(x.Name, "spf13/viper.") && len(x.Args) == 1 && x.Args[0].Val == keyV {
 						hit = true
 						g = x.Name[strings.LastIndex(x.Name, ".")+1:]
 					}
@@ -456,7 +486,7 @@ func checkHierarchical(p *core.Prog, r *core.Report, ds *core.Describer, f *ssa.
 			hit := false
 			g := ""
 			side.Walk(func(x *core.VD) bool {
-				if x.Kind == "call" && strings.Contains(x.Name, "spf13/viper.") && len(x.Args) == 1 && x.Args[0].Val == ssa.Value(keyCall) {
+				if x.Kind == "call" && strings.Contains(x.Name, "spf13/viper.") && len(x.Args) == 1 && x.Args[0].Val == keyV {
 					hit = true
 					g = x.Name[strings.LastIndex(x.Name, ".")+1:]
 				}
@@ -525,7 +555,7 @@ func checkHierarchical(p *core.Prog, r *core.Report, ds *core.Describer, f *ssa.
 		case onNonEmpty:
 			nHit++
 			for _, k := range keys {
-				r.Check(k.Val == ssa.Value(keyCall), "C19.3", construct+"|returned-key", p.Pos(ret.Pos()), "the value returned is read from <path>.<name>", "the value returned is read from "+k.String()+", not from the key that was tested")
+				r.Check(k.Val == keyV, "C19.3", construct+"|returned-key", p.Pos(ret.Pos()), "the value returned is read from <path>.<name>", "the value returned is read from "+k.String()+", not from the key that was tested")
 			}
 			w := core.Unguarded(ds, f, nil, isRet, presence)
 			r.Check(w == nil, "C19.3", construct+"|presence-test", p.Pos(ret.Pos()), "the found value is returned only after a presence test on the same key", "the value at <path>.<name> is returned without a presence test on that key", p.WitnessText(w)...)
@@ -550,7 +580,7 @@ func checkHierarchical(p *core.Prog, r *core.Report, ds *core.Describer, f *ssa.
 	}
 	// (2) suffix equals base key
 	if suffixParam != nil {
-		r.Check(baseParam, "C19.2", base+"|suffix-equals-base", p.Pos(keyCall.Pos()), "the per-level key uses the same variable name as the top-level lookup", "the per-level key uses the variable parameter but the top-level lookup does not")
+		r.Check(baseParam, "C19.2", base+"|suffix-equals-base", p.Pos(keyV.Pos()), "the per-level key uses the same variable name as the top-level lookup", "the per-level key uses the variable parameter but the top-level lookup does not")
 	} else {
 		ok := false
 		for _, k := range baseKeys {
@@ -558,7 +588,7 @@ func checkHierarchical(p *core.Prog, r *core.Report, ds *core.Describer, f *ssa.
 				ok = true
 			}
 		}
-		r.Check(ok, "C19.2", base+"|suffix-equals-base", p.Pos(keyCall.Pos()), fmt.Sprintf("per-level key suffix %q is the base key", suffix), fmt.Sprintf("per-level key suffix %q differs from the top-level key(s) %v", suffix, baseKeys))
+		r.Check(ok, "C19.2", base+"|suffix-equals-base", p.Pos(keyV.Pos()), fmt.Sprintf("per-level key suffix %q is the base key", suffix), fmt.Sprintf("per-level key suffix %q differs from the top-level key(s) %v", suffix, baseKeys))
 	}
 	r.Check(nBase >= 1, "C19.1", base+"|has-base-return", p.Pos(f.Pos()), "has a top-level return", "no return for path == \"\"")
 	r.Check(nHit >= 1, "C19.3", base+"|has-hit-return", p.Pos(f.Pos()), "has a found-value return", "no return of the value found at <path>.<name>")
